@@ -32,6 +32,18 @@ PROGRAMS = [
      dict(m=[[1, 2, 3], [4, 0, 5]], n=[0, 1, 3])),
     ("def test(c: Parameter[Qfixed[1,2]], a: Qfixed[1,2]) -> Qfixed[1,2]:\n    return a + c", dict(c=[0.25, 0.5, 1.25])),
     ("def test(c: Parameter[Qchar], a: Qchar) -> bool:\n    return a == c", dict(c=["a", "z"])),
+    # list / tuple parameters consumed by builtins (constant folding of the expansion)
+    ("def test(c: Parameter[List[bool]], a: bool, b: bool) -> bool:\n    return (a and any(c)) or b",
+     dict(c=[[False], [True], [False, False], [False, True], [True, True], [False, False, False]])),
+    ("def test(c: Parameter[List[bool]], a: bool, b: bool) -> bool:\n    return (a or not all(c)) and b",
+     dict(c=[[True], [False], [True, True], [True, False], [False, False], [True, True, True]])),
+    ("def test(c: Parameter[List[bool]], d: Parameter[List[bool]], a: bool) -> bool:\n    r = False\n    for t in c:\n        for u in d:\n            r = r or (t and u and a)\n    return r",
+     dict(c=[[True], [True, True], [False, True]], d=[[True], [True, True], [False]])),
+    ("def test(w: Parameter[List[int]], a: Qint[2]) -> Qint[4]:\n    return sum(w) + a", dict(w=[[1, 0, 0], [1, 1, 0], [3, 2, 1], [0]])),
+    ("def test(w: Parameter[List[int]], a: Qint[4]) -> bool:\n    return a > len(w)", dict(w=[[1], [1, 2, 3], [0, 0], [5, 5, 5, 5, 5]])),
+    ("def test(w: Parameter[List[int]], a: Qint[2]) -> Qint[4]:\n    return max(w) + a", dict(w=[[1, 3], [2, 0], [0, 1, 2]])),
+    ("def test(w: Parameter[List[int]], a: Qint[2]) -> Qint[4]:\n    return w[a]", dict(w=[[1, 2, 3, 4], [7, 0, 7, 0], [15, 0, 0, 1]])),
+    ("def test(lo: Parameter[Qint[2]], hi: Parameter[Qint[2]], a: Qint[2]) -> bool:\n    return lo <= a and a <= hi", dict(lo=[0, 1, 2], hi=[1, 2, 3])),
 ]
 
 
